@@ -168,6 +168,9 @@ def _zip_roles(fi, zipcall):
             roles.append('inputs')
         elif any(lib.is_config(n, 'subgraders') for n in ast.walk(v)):
             roles.append('graders')
+        elif isinstance(a, ast.Name) and lib.assigned_value(fi.node, a.id) and all(
+                any(lib.is_config(n, 'subgraders') for n in ast.walk(x)) for x in lib.assigned_value(fi.node, a.id)):
+            roles.append('graders')          # assigned in both branches of `if self.subgrader_list`
         else:
             roles.append(None)
     return roles
@@ -216,6 +219,10 @@ def matrix_body(r, idx, lists_may_differ=False):
         acc = cm.accumulated_comp(fi, n_)
         if acc is not None and isinstance(acc.elt, ast.ListComp):
             mats.append((n_, acc))
+    if len(mats) > 1:
+        names_ = {n for n, v in mats}
+        # a second nested comprehension that runs over the first is the cost matrix, not the result matrix
+        mats = [(n, v) for n, v in mats if not (isinstance(v.generators[0].iter, ast.Name) and v.generators[0].iter.id in names_ - {n})]
     if len(mats) != 1:
         raise AnalysisError('find_optimal_order: expected one nested list comprehension (result matrix), found %d' % len(mats))
     mname, outer = mats[0]
@@ -262,11 +269,35 @@ def matrix_body(r, idx, lists_may_differ=False):
     else:
         r.undecided(construct, 'cell `%s` is not check(a, i)' % short(cell), lib.loc(fi, cell))
     # --- cost
-    mc = lib.one_call(fi, 'make_cost_matrix')
+    mcs = lib.calls_named(fi.node, 'make_cost_matrix')
+    own_comp = None
+    if not mcs:
+        # the cost matrix built in place: [[cost(cell) for cell in row] for row in result_matrix]
+        for n_, v_ in lib.local_env(fi.node).items():
+            if isinstance(v_, ast.ListComp) and isinstance(v_.elt, ast.ListComp) and len(v_.generators) == 1 and len(v_.elt.generators) == 1 \
+                    and cm.is_name(v_.generators[0].iter, mname):
+                own_comp = (n_, v_)
+    if not mcs and own_comp is None:
+        raise AnalysisError('find_optimal_order: neither make_cost_matrix(...) nor a cost matrix comprehension over the result matrix found')
     construct = 'find_optimal_order: make_cost_matrix'
-    r.check(len(mc.args) >= 1 and cm.is_name(mc.args[0], mname), construct + ' profit matrix', 'the result matrix',
-            'the cost matrix is not built from the result matrix (`%s`)' % short(mc), lib.loc(fi, mc))
-    inv = lib.get_kw(mc, 'inversion_function', 1)
+    if own_comp is not None:
+        cname_, cv = own_comp
+        og2, ig2 = cv.generators[0], cv.elt.generators[0]
+        cellc = cv.elt.elt
+        shape_ok = isinstance(og2.target, ast.Name) and not og2.ifs and not ig2.ifs and cm.is_name(ig2.iter, og2.target.id) \
+            and isinstance(ig2.target, ast.Name) and isinstance(cellc, ast.Call) and len(cellc.args) == 1 and not cellc.keywords \
+            and cm.is_name(cellc.args[0], ig2.target.id)
+        if not shape_ok:
+            r.undecided(construct + ' profit matrix', 'cost matrix comprehension `%s` not recognised' % short(cv, 100), lib.loc(fi, cv))
+            return
+        r.ok(construct + ' profit matrix', 'cost[k][l] = cost(result_matrix[k][l]) (built in place, same orientation)', lib.loc(fi, cv))
+        mc = cv
+        inv = cellc.func
+    else:
+        mc = lib.one_call(fi, 'make_cost_matrix')
+        r.check(len(mc.args) >= 1 and cm.is_name(mc.args[0], mname), construct + ' profit matrix', 'the result matrix',
+                'the cost matrix is not built from the result matrix (`%s`)' % short(mc), lib.loc(fi, mc))
+        inv = lib.get_kw(mc, 'inversion_function', 1)
     cost_fi = None
     if isinstance(inv, ast.Name):
         targets, how = idx.resolve_call(fi, ast.Call(func=inv, args=[], keywords=[]))
@@ -379,8 +410,11 @@ def matrix_body(r, idx, lists_may_differ=False):
             else:
                 r.undecided(construct, 'element `%s` / target `%s`' % (short(e), short(tg)), where)
     # --- make_cost_matrix keeps orientation and order
-    mfi = idx.func(cm.MUNKRES_MOD + '.make_cost_matrix')
-    _cost_matrix_shape(r, mfi)
+    if own_comp is None:
+        mfi = idx.func(cm.MUNKRES_MOD + '.make_cost_matrix')
+        _cost_matrix_shape(r, mfi)
+    else:
+        r.ok('make_cost_matrix: orientation', 'not used: the cost matrix is built in place with the same orientation', lib.loc(fi, mc))
     # --- the solver emits (row, col) in increasing row order
     ex = cm.extraction_facts(idx)
     comp = ex.fi
@@ -903,6 +937,9 @@ def _best(r, idx):
     # the grid is filled [result index, box] = grade_decimal
     construct = 'get_best_result: grade table'
     if isinstance(grid, ast.Name):
+        g2 = cm.deref(fi, grid, depth=1)
+        if isinstance(g2, ast.Name):
+            grid = g2               # `full_grades = table`: the table is filled under its first name
         fills = [s for s in walk_own(fi.node) if isinstance(s, ast.Assign) and len(s.targets) == 1
                  and isinstance(s.targets[0], ast.Subscript) and cm.is_name(s.targets[0].value, grid.id)]
         if len(fills) != 1:
@@ -1593,6 +1630,7 @@ BENIGN = [
            "            if any(len(group) != group_len for group in self.grouping):\n                raise ConfigError(\"Groups must all be the same length when unordered\")"),
     Benign('group-sizes-by-set', LG, "            group_len = len(self.grouping[0])\n            for group in self.grouping:\n                if len(group) != group_len:\n                    raise ConfigError(\"Groups must all be the same length when unordered\")",
            "            if len(set(len(group) for group in self.grouping)) > 1:\n                raise ConfigError(\"Groups must all be the same length when unordered\")"),
+    Benign('cost-matrix-built-in-place', LG, "    cost_matrix = munkres.make_cost_matrix(result_matrix, calculate_cost)\n", "    cost_matrix = [[calculate_cost(result) for result in row] for row in result_matrix]\n"),
     Benign('max-as-method', LG, "        max_score = np.max(scores)", "        max_score = scores.max()"),
     Benign('log-before-validation', LG, "        self.validate_submission(answers, student_list)\n\n        # Group the inputs",
            "        self.log('checking a list')\n        self.validate_submission(answers, student_list)\n\n        # Group the inputs"),
